@@ -26,7 +26,8 @@ KNOWN_TAGS = {1: "unary_minus_over_pow", 2: "literal_hint_leak", 3: "float_modul
               7: "signed_div_overflow", 8: "same_register_cast", 9: "sign_change_cast_out_of_range",
               10: "float_to_int_out_of_range", 11: "u64_pow_exponent_above_i63"}
 STAGES = {"ok": 0, "parse": 1, "analyze": 2, "compile": 3, "validate": 4, "instantiate": 5, "nofunc": 6}
-TRAPS = {"div_zero": 1, "int_overflow": 2, "invalid_conversion": 3, "unreachable": 4, "pow_zero_neg": 5}
+TRAPS = {"div_zero": 1, "int_overflow": 2, "invalid_conversion": 3, "unreachable": 4, "pow_zero_neg": 5,
+         "timeout": 6}
 
 
 def is_int(t):
@@ -225,6 +226,7 @@ class Gen:
         self.rng = rng
         self.tys = list(params)       # type of every local index
         self.known_rate = known_rate
+        self.loop_rate = 0.0
 
     def vars_of(self, scope, t):
         return [i for i in scope if self.tys[i] == t]
@@ -350,61 +352,150 @@ class Gen:
             t = rng.choice(["i32", "u32", "i8", "u16"])
         return anchor(self.top_expr(t, depth, scope, None))
 
-    def block(self, ret, depth, scope, nest, must_return):
+    def if_chain(self, ret, depth, scope, nest, loops, prot):
+        rng = self.rng
+        c = self.cond(depth - 1, scope)
+        th, _ = self.block(ret, depth - 1, scope, nest + 1, False, loops, prot)
+        k = rng.choice([0, 0, 0, 1, 1, 2, 3]) if loops else rng.choice([0, 0, 0, 0, 1, 1, 2])
+        has_else = rng.random() < (0.7 if (k or loops) else 0.5)
+        elifs = []
+        for _ in range(k):          # in source order: local indices follow the order of appearance
+            c2 = self.cond(depth - 1, scope)
+            th2, _ = self.block(ret, depth - 1, scope, nest + 1, False, loops, prot)
+            elifs.append((c2, th2))
+        el = None
+        if has_else:
+            eb, _ = self.block(ret, depth - 1, scope, nest + 1, False, loops, prot)
+            el = {"k": "else", "b": eb}
+        for c2, th2 in reversed(elifs):
+            el = {"k": "elif", "c": c2, "th": th2, "el": el}
+        return {"k": "if", "c": c, "th": th, "el": el}
+
+    def new_local(self, t):
+        i = len(self.tys)
+        self.tys.append(t)
+        return i
+
+    def small(self, t, lo, hi):
+        return {"k": "lit", "t": t, "v": self.rng.randrange(lo, hi + 1), "ty": t}
+
+    def loop(self, ret, depth, scope, nest, loops, prot):
+        """a bounded loop (spec.md has none; these are the forms the compiler accepts); returns
+        the statements to emit (a counter declaration may precede the loop)"""
+        rng = self.rng
+        kind = wchoice(rng, [("range", 50), ("cond", 30), ("inf", 20)])
+        if kind == "range":
+            t = wchoice(rng, [("i64", 40), ("i32", 25), ("u32", 15), ("u64", 20)])
+            i = self.new_local(t)
+            lim = self.new_local(t)
+            form = rng.choice([1, 1, 2, 2, 3, 3])
+            vs = [v for v in scope if self.tys[v] == t]
+            if vs and rng.random() < 0.4:
+                stop = {"k": "arith", "op": "%", "a": {"k": "var", "i": rng.choice(vs), "ty": t},
+                        "b": self.small(t, 2, 6), "ty": t}
+            else:
+                stop = self.small(t, 0, 7)
+            start = self.small(t, 0, 3) if form >= 2 else None
+            step = None
+            if form == 3:
+                j = self.new_local(t)
+                if signed(t) and rng.random() < 0.4:
+                    start = self.small(t, 3, 8)
+                    stop = self.small(t, 0, 4)
+                    se = {"k": "neg", "e": self.small(t, 1, 3), "ty": t}
+                else:
+                    se = self.small(t, 1, 3)
+                step = {"j": j, "e": se}
+            # the analyzer types an all-literal range i64: fix another type with a cast
+            args = [a for a in (start, stop) if a is not None]
+            if t != "i64" and not any(anchored(a) for a in args):
+                tgt = args[0]
+                inner = dict(tgt)
+                tgt.clear()
+                tgt.update(typed_lit(inner) if inner["k"] == "lit" else
+                           {"k": "cast", "t": t, "e": inner, "ty": t})
+            body, _ = self.block(ret, depth - 1, scope + [i], nest, False, loops + 1, set(prot) | {i})
+            return [{"k": "range", "i": i, "lim": lim, "t": t, "start": start, "stop": stop, "step": step,
+                     "b": body}]
+        # counter-controlled loops: the counter is bumped first, so `continue` cannot starve it
+        t = wchoice(rng, TYPE_W[:8])
+        c = self.new_local(t)
+        decl = {"k": "decl", "i": c, "t": t, "e": self.small(t, 0, 2), "infer": False}
+        bump = {"k": "compound", "i": c, "op": "+", "e": self.small(t, 1, 2)}
+        cv = {"k": "var", "i": c, "ty": t}
+        sc2 = scope + [c]
+        pr2 = set(prot) | {c}
+        if kind == "cond":
+            cond = {"k": "cmp", "op": rng.choice(["<", "<=", "!="]) if False else rng.choice(["<", "<="]),
+                    "a": cv, "b": self.small(t, 1, 7), "ty": "u8"}
+            if rng.random() < 0.3:
+                extra = anchor(self.bool_expr(depth - 1, scope))
+                cond = {"k": "and", "a": cond, "b": fit(extra, 5, rng), "ty": "u8"}
+            body, _ = self.block(ret, depth - 1, sc2, nest, False, loops + 1, pr2)
+            return [decl, {"k": "for", "c": cond, "b": [bump] + body}]
+        guard = {"k": "cmp", "op": rng.choice([">", ">="]), "a": dict(cv), "b": self.small(t, 2, 7), "ty": "u8"}
+        if rng.random() < 0.75:
+            leave = [{"k": "break"}]
+        else:
+            leave = [{"k": "return", "e": self.top_expr(ret, depth - 1, sc2, None)}]
+        body, _ = self.block(ret, depth - 1, sc2, nest, False, loops + 1, pr2)
+        return [decl, {"k": "loop", "b": [bump, {"k": "if", "c": guard, "th": leave, "el": None}] + body}]
+
+    def block(self, ret, depth, scope, nest, must_return, loops=0, prot=()):
         """returns (stmts, scope_after)"""
         rng = self.rng
         scope = list(scope)
         out = []
         n = rng.choice([0, 0, 1, 1, 2, 3]) if nest > 0 else rng.choice([0, 1, 1, 2, 3, 4])
+        if loops:
+            n = rng.choice([0, 1, 1, 2]) if nest > 0 else rng.choice([0, 1, 2, 2, 3])
         for _ in range(n):
             x = rng.random()
-            if x < 0.40:
+            assignable = [v for v in scope if v not in prot]
+            if x < 0.36:
                 t = wchoice(rng, TYPE_W)
-                i = len(self.tys)
-                self.tys.append(t)
+                i = self.new_local(t)
                 e = self.top_expr(t, depth, scope, t)
                 infer = e["k"] in ("var", "cast") and rng.random() < 0.5
                 out.append({"k": "decl", "i": i, "t": t, "e": e, "infer": infer})
                 scope.append(i)
-            elif x < 0.55 and scope:
-                i = rng.choice(scope)
+            elif x < 0.49 and assignable:
+                i = rng.choice(assignable)
                 out.append({"k": "assign", "i": i, "e": self.top_expr(self.tys[i], depth, scope, self.tys[i])})
-            elif x < 0.70 and scope:
-                i = rng.choice(scope)
+            elif x < 0.62 and assignable:
+                i = rng.choice(assignable)
                 t = self.tys[i]
                 op = rng.choice("+-*/%" if is_int(t) else "+-*/")
                 out.append({"k": "compound", "i": i, "op": op, "e": self.top_expr(t, depth - 1, scope, t)})
+            elif x < 0.62 + self.loop_rate and loops < 2 and nest + loops < 3:
+                sts = self.loop(ret, depth, scope, nest, loops, prot)
+                for st in sts:
+                    if st["k"] == "decl":
+                        scope.append(st["i"])
+                        prot = set(prot)     # the counter stays assignable after its loop
+                out += sts
             elif nest < 2:
-                c = self.cond(depth - 1, scope)
-                th, _ = self.block(ret, depth - 1, scope, nest + 1, False)
-                y = rng.random()
-                if y < 0.35:
-                    el = None
-                elif y < 0.75:
-                    eb, _ = self.block(ret, depth - 1, scope, nest + 1, False)
-                    el = {"k": "else", "b": eb}
-                else:
-                    c2 = self.cond(depth - 1, scope)
-                    th2, _ = self.block(ret, depth - 1, scope, nest + 1, False)
-                    if rng.random() < 0.6:
-                        eb, _ = self.block(ret, depth - 1, scope, nest + 1, False)
-                        el2 = {"k": "else", "b": eb}
-                    else:
-                        el2 = None
-                    el = {"k": "elif", "c": c2, "th": th2, "el": el2}
-                out.append({"k": "if", "c": c, "th": th, "el": el})
-        if must_return or rng.random() < 0.45:
+                out.append(self.if_chain(ret, depth, scope, nest, loops, prot))
+        z = rng.random()
+        if must_return:
+            out.append({"k": "return", "e": self.top_expr(ret, depth, scope, None)})
+        elif loops > 0 and z < (0.45 if nest > 0 else 0.12):
+            out.append({"k": rng.choice(["break", "continue", "continue"])})
+        elif z < 0.45 + (0.25 if loops else 0.0) and (nest > 0 or loops == 0) and z >= (0.45 if loops and nest > 0 else 0.0):
             out.append({"k": "return", "e": self.top_expr(ret, depth, scope, None)})
         return out, scope
 
 
-def gen_prog(rng, known_rate=1.0):
+def gen_prog(rng, known_rate=1.0, loops=None):
     np_ = rng.choice([1, 2, 2, 2, 3])
     params = [wchoice(rng, TYPE_W) for _ in range(np_)]
     if rng.random() < 0.55:
         params = [params[0]] * np_
     ret = wchoice(rng, TYPE_W) if rng.random() < 0.6 else params[0]
     g = Gen(rng, params, known_rate)
+    if loops is None:
+        loops = rng.random() < 0.4
+    g.loop_rate = 0.30 if loops else 0.0
     depth = rng.choice([1, 2, 2, 3, 3, 4])
     body, _ = g.block(ret, depth, list(range(np_)), 0, True)
     return {"params": params, "locals": g.tys[np_:], "ret": ret, "body": body}
@@ -457,6 +548,23 @@ def src_block(f, b, ind):
             out.append("%s%s %s= %s" % (pad, vname(f, s["i"]), s["op"], src_expr(f, s["e"])))
         elif k == "return":
             out.append("%sreturn %s" % (pad, src_expr(f, s["e"])))
+        elif k in ("break", "continue"):
+            out.append(pad + k)
+        elif k == "for":
+            out.append("%sfor %s {" % (pad, src_expr(f, s["c"])))
+            out += src_block(f, s["b"], ind + 1)
+            out.append(pad + "}")
+        elif k == "loop":
+            out.append(pad + "for {")
+            out += src_block(f, s["b"], ind + 1)
+            out.append(pad + "}")
+        elif k == "range":
+            args = [src_expr(f, a) for a in (s["start"], s["stop"]) if a is not None]
+            if s["step"] is not None:
+                args.append(src_expr(f, s["step"]["e"]))
+            out.append("%sfor %s := range(%s) {" % (pad, vname(f, s["i"]), ", ".join(args)))
+            out += src_block(f, s["b"], ind + 1)
+            out.append(pad + "}")
         elif k == "if":
             line = "%sif %s {" % (pad, src_expr(f, s["c"]))
             out.append(line)
@@ -549,6 +657,19 @@ def c_stmt(s):
         return "(SReturn %s)" % c_expr(s["e"])
     if k == "if":
         return "(SIf %s %s %s)" % (c_expr(s["c"]), c_block(s["th"]), c_els(s["el"]))
+    if k == "break":
+        return "SBreak"
+    if k == "continue":
+        return "SContinue"
+    if k == "for":
+        return "(SFor %s %s)" % (c_expr(s["c"]), c_block(s["b"]))
+    if k == "loop":
+        return "(SLoop %s)" % c_block(s["b"])
+    if k == "range":
+        st = "None" if s["start"] is None else "(Some %s)" % c_expr(s["start"])
+        sp = "None" if s["step"] is None else "(Some (%s, %s))" % (cnat(s["step"]["j"]), c_expr(s["step"]["e"]))
+        return "(SRange %s %s %s %s %s %s %s)" % (cnat(s["i"]), cnat(s["lim"]), c_ity(s["t"]), st,
+                                                c_expr(s["stop"]), sp, c_block(s["b"]))
     raise ValueError(k)
 
 
@@ -715,7 +836,8 @@ def walk_kinds(b, acc):
             acc.append("op" + b["op"] + ":" + b["ty"])
         elif k == "cast":
             acc.append("cast:%s->%s" % (b["e"]["ty"], b["t"]))
-        elif k in ("cmp", "and", "or", "not", "neg", "pow", "if", "decl", "assign", "compound", "return", "elif", "else"):
+        elif k in ("cmp", "and", "or", "not", "neg", "pow", "if", "decl", "assign", "compound", "return", "elif", "else",
+                   "for", "loop", "range", "break", "continue"):
             acc.append(k)
         for v in b.values():
             walk_kinds(v, acc)
